@@ -751,7 +751,15 @@ func (vc *VC) havocLoop(li *loopInfo, h *Heap) {
 		}
 	}
 	if coarseAll {
-		vc.havocAll(h, fmt.Sprintf("loop#%d of %s contains calls with unknown effects", li.ord, vc.key))
+		// accumulator ghosts that no call in the loop can update survive (as they survive a single call
+		// of unknown code); the ones the loop may update are re-havocked by the deferred step above
+		var keepAcc []string
+		for _, g := range vc.localGhosts() {
+			if !ghostHavoc[g] {
+				keepAcc = append(keepAcc, g)
+			}
+		}
+		vc.havocAll(h, fmt.Sprintf("loop#%d of %s contains calls with unknown effects", li.ord, vc.key), keepAcc...)
 		return
 	}
 	done := map[string]bool{}
